@@ -90,7 +90,8 @@ def run_moving(case):
             data = np.repeat(data, 3, axis=ax)[tuple(slice(0, L) if i == ax else slice(None) for i in range(ndim))]
     else:
         dt = ['float64', 'float32'][int(rng.integers(2))]
-        data = rng.normal(float(rng.choice([0, 5, -200])), float(rng.choice([1, 20])), shape).astype(dt)
+        scale = float(rng.choice([1.0, 1.0, 1e-6, 1e-9, 1e6])) if dt == 'float64' else 1.0
+        data = (scale * rng.normal(float(rng.choice([0, 5, -200])), float(rng.choice([1, 20])), shape)).astype(dt)      # incl. traces in micro / nano units
     op = ['sum', 'mean', 'var', 'std', 'skew', 'kurtosis'][int(rng.integers(6))]
     w = int(rng.integers(1, L + 1)) if rng.random() < 0.8 else int(rng.choice([1, L]))
     info = dict(op=op, shape=shape, axis=axis, window=w, dtype=dt)
@@ -277,7 +278,11 @@ def run_pad(case):
     target = tuple(s + o + int(e) for s, o, e in zip(shape, offs, rng.integers(0, 4, ndim)))
     dt = ['uint8', 'int16', 'float32', 'float64', 'int64'][int(rng.integers(5))]
     a = rng.integers(1, 100, shape).astype(dt)
+    if np.dtype(dt).kind == 'f':
+        a = (a + rng.random(shape)).astype(dt)            # non-integral samples: a fill value must not decide the dtype of the result
     pw = [0, 0, 7, -1 if dt != 'uint8' else 3][int(rng.integers(4))]
+    if np.dtype(dt).kind == 'f' and rng.random() < 0.3:
+        pw = [0.5, -2.25][int(rng.integers(2))]
     use_off = rng.random() < 0.8
     kw = {}
     if use_off:
@@ -295,11 +300,12 @@ def run_pad(case):
     out = sp.pad(ro, tgt, **kw)
     if not t.check(out.shape == target, 'pad_shape', lambda: dict(info, got=out.shape)):
         return t.result()
-    exp = np.full(target, pw, dtype=out.dtype)
+    t.check(out.dtype == np.result_type(a.dtype, np.min_scalar_type(pw)) or out.dtype == a.dtype, 'pad_dtype', lambda: dict(info, got=str(out.dtype)))
+    exp = np.full(target, pw, dtype=np.result_type(a.dtype, 'float64') if np.dtype(dt).kind == 'f' else out.dtype)
     for idx in itertools.product(*[range(s) for s in shape]):
         exp[tuple(i + o for i, o in zip(idx, offs))] = a[idx]
     t.count('pad_cells', exp.size)
-    t.check(bool(np.array_equal(out, exp)), 'pad_value', lambda: dict(info, got=out.tolist(), expected=exp.tolist()))
+    t.check(bool(np.array_equal(np.asarray(out, dtype=exp.dtype), exp)), 'pad_value', lambda: dict(info, got=out.tolist(), expected=exp.tolist()))
     return t.result(sig=f"pad|{shape}|{offs}|{target}|{dt}|{pw}", sample=dict(case=case, derived=info))
 
 
